@@ -308,8 +308,8 @@ def body(case, rec, cap):
 
 
 def run(ctx):
-    cap = 24 if ctx.quick else 100
-    n = ctx.share(800 if ctx.quick else 3200)
+    cap = 24 if ctx.quick else 60
+    n = ctx.share(800 if ctx.quick else 1600)
     explore(ctx, cases(16 if ctx.quick else 40), lambda c, r: body(c, r, cap), n)
 
 
